@@ -1269,7 +1269,21 @@ func isFastForward(s storer.EncodedObjectStorer, old, newHash plumbing.Hash, sha
 			}
 			return false, err
 		}
-		parentsToIgnore = append(parentsToIgnore, shallowCommit.ParentHashes...)
+		for _, p := range shallowCommit.ParentHashes {
+			// Only a parent that is really missing is a boundary. A parent
+			// that is stored locally (it was fetched through another ref)
+			// is an ordinary commit and may be old, newHash or lie on the
+			// path between them; hiding it from the walk would report a
+			// real fast-forward as a non-fast-forward.
+			err := s.HasEncodedObject(p)
+			if err == nil {
+				continue
+			}
+			if !errors.Is(err, plumbing.ErrObjectNotFound) {
+				return false, err
+			}
+			parentsToIgnore = append(parentsToIgnore, p)
+		}
 	}
 
 	found := false
